@@ -35,6 +35,11 @@ AnalyzeWhy(r) ==
                ~(AffectedLo(c, {s.path}) \subseteq so /\ so \subseteq AffectedHi(c, {s.path})
                  /\ NoDup(s.targets) /\ s.strictly_sorted)
           THEN "single-change analysis wrong"
+     ELSE IF \E s \in RangeOf(r.out.pairs) :
+               LET so == RangeOf(s.targets) IN
+               ~(AffectedLo(c, RangeOf(s.paths)) \subseteq so /\ so \subseteq AffectedHi(c, RangeOf(s.paths))
+                 /\ NoDup(s.targets) /\ s.strictly_sorted)
+          THEN "two-change analysis wrong"
      ELSE IF \E alt \in RangeOf(r.out.presentations) : RangeOf(alt) # out
           THEN "summary depends on order, number or batching of changes"
      ELSE ""
